@@ -93,6 +93,9 @@ L2_CAT = {"MAXRUN": "C07", "RESUME": "C08", "RETRY": "C08", "W0": "C13", "W1": "
           "ACCT": "beyond-the-list", "HDR": "beyond-the-list"}
 
 
+LOOPDEV = {"scenarios": 0, "available": False}
+
+
 def run_l2(prop, tier, out, workdir):
     """The real `bita clone` process on natural-chunk files arranged by TLC-generated layouts (lib/clone_l2.py), judged by CloneL2Trace.tla."""
     import sys
@@ -120,7 +123,10 @@ def run_l2(prop, tier, out, workdir):
             o, e = p.communicate()
             if p.returncode != 0:
                 raise ToolError("clone_l2 failed (%d): %s" % (p.returncode, e.decode()[-2000:]))
-            runs += json.loads(o.decode().strip().splitlines()[-1])["runs"]
+            rj = json.loads(o.decode().strip().splitlines()[-1])
+            runs += rj["runs"]
+            LOOPDEV["scenarios"] += rj.get("loopdev_scenarios", 0)
+            LOOPDEV["available"] = LOOPDEV["available"] or rj.get("loop_available", False)
         total += runs
         verdicts, summary = tlc_validate("CloneL2Trace", "CloneL2Trace.cfg", traces)
         for k in tv:
@@ -251,6 +257,8 @@ def run_clone_check(prop, tier):
         "states": states, "transitions": trans,
         "traces_validated_against_impl": total_runs + l2_runs,
         "l2_process_runs": l2_runs, "l2_trace_events_validated": l2_tv["events"],
+        "l2_block_devices": {"real_loop_device_scenarios": LOOPDEV["scenarios"], "loop_devices_available": LOOPDEV["available"],
+                             "note": "the other block-device scenarios run on regular files behind hook H1"},
         "trace_events_validated": tv["events"], "scenarios_accepted": tv["scenarios_ok"], "verdicts_all_properties": verdict_counts,
         "model_checking_runs": mc_runs,
         "exhaustive": True,
